@@ -161,7 +161,8 @@ fn permute<T>(v: &mut Vec<T>, stream: &[u8], off: usize) {
 type Eng = PPGEvaluator<VerifStrategy>;
 
 fn observable(g: &mut Eng, ids: &BTreeMap<String, usize>) -> (Snapshot, Vec<String>, String, bool) {
-    let fin = g.is_finished();
+    // the snapshot comes first: `is_finished()` takes `&mut self` and may itself change the
+    // start status, which would hide a change made by the call under test
     let snap = g.verif_snapshot();
     let mut q: Vec<String> = vec![];
     for (name, set) in [
@@ -183,7 +184,21 @@ fn observable(g: &mut Eng, ids: &BTreeMap<String, usize>) -> (Snapshot, Vec<Stri
             JobOutputResult::NoSuchJob => format!("{}:NoSuchJob", id),
         });
     }
-    (snap, q, g.debug_(), fin)
+    let dbg = g.debug_();
+    let fin = g.is_finished();
+    if fin {
+        // in the final state the history is part of what can be observed
+        let h = std::panic::catch_unwind(std::panic::AssertUnwindSafe(|| g.new_history()));
+        q.push(match h {
+            Ok(Ok(h)) => {
+                let b: BTreeMap<String, String> = h.into_iter().collect();
+                format!("history={:?}", b)
+            }
+            Ok(Err(e)) => format!("history=Err({})", stem_of_error(&e).0),
+            Err(_) => "history=panic".to_string(),
+        });
+    }
+    (snap, q, dbg, fin)
 }
 
 /// Run one evaluation. `w` is the world before the evaluation (history = input
@@ -256,6 +271,8 @@ pub fn run_eval(w: &mut World, plan: &Plan, sched: &Sched, opts: &Opts) -> EvalO
     let useless = w.useless();
     let njobs = ids.len();
 
+    // C20: the observable state before the driver call in progress (probes mode only)
+    let mut probe_before: Option<(Snapshot, Vec<String>, String, bool)> = None;
     macro_rules! chk {
         ($e:expr, $what:expr) => {
             match $e {
@@ -266,7 +283,17 @@ pub fn run_eval(w: &mut World, plan: &Plan, sched: &Sched, opts: &Opts) -> EvalO
                 }
                 Err(e) => {
                     let (stem, msg) = stem_of_error(&e);
+                    if let (Some(b), PPGEvaluatorError::APIError(_)) = (probe_before.take(), &e) {
+                        // whatever the driver believed: a call the engine rejects as misuse
+                        // must leave everything observable as it was
+                        let after = observable(&mut g, &ids);
+                        if after != b {
+                            let what_changed = if after.0 != b.0 { "snapshot" } else if after.1 != b.1 { "queries" } else { "debug" };
+                            res.v("C20", format!("rejected-driver-call/state-changed/{}", $what), format!("{} ({} differs)", msg, what_changed));
+                        }
+                    }
                     res.engine_error = Some(format!("{} {}", $what, msg));
+                    res.v("C05", format!("evaluation-cannot-finish/legal-call-refused/{}", stem), format!("{}: {}", $what, msg));
                     res.v("C06", stem, format!("{}: {}", $what, msg));
                     res.transitions.extend(take_transitions());
                     res.noise_hits = noise_hits.get();
@@ -277,6 +304,7 @@ pub fn run_eval(w: &mut World, plan: &Plan, sched: &Sched, opts: &Opts) -> EvalO
         };
     }
 
+    PHASE.with(|p| p.set("run"));
     chk!(g.event_startup(), "event_startup");
     let mut started: BTreeSet<String> = BTreeSet::new();
     let mut running: Vec<String> = vec![];
@@ -519,6 +547,9 @@ pub fn run_eval(w: &mut World, plan: &Plan, sched: &Sched, opts: &Opts) -> EvalO
             }
             if !running.is_empty() {
                 res.v("C17", "finished-while-driver-has-running-jobs", format!("{:?}", running));
+                if !res.aborted {
+                    res.v("C05", "finished-while-started-jobs-have-not-reported-back", format!("{:?}", running));
+                }
             }
             break;
         }
@@ -549,6 +580,7 @@ pub fn run_eval(w: &mut World, plan: &Plan, sched: &Sched, opts: &Opts) -> EvalO
                 res.abort_ready = startable.len();
                 res.abort_running = running.len();
                 res.abort_reported_failed = style;
+                PHASE.with(|p| p.set("abort"));
                 for j in running.clone() {
                     res.running_at_abort.insert(j.clone());
                     let s = ids[&j];
@@ -557,13 +589,23 @@ pub fn run_eval(w: &mut World, plan: &Plan, sched: &Sched, opts: &Opts) -> EvalO
                     res.failed.insert(j.clone());
                     if style {
                         res.events.push(format!("fail-at-abort {}", j));
-                        chk!(g.event_job_finished_failure(&j), "event_job_finished_failure(at abort)");
+                        let r = g.event_job_finished_failure(&j);
+                        if let Err(e) = &r {
+                            let (stem, msg) = stem_of_error(e);
+                            res.v("C10", format!("reporting-running-job-failed-before-abort/{}", stem), msg);
+                        }
+                        chk!(r, "event_job_finished_failure(at abort)");
                     }
                 }
                 running.clear();
                 res.events.push("abort".into());
                 res.aborted = true;
-                chk!(g.abort_remaining(), "abort_remaining");
+                let r = g.abort_remaining();
+                if let Err(e) = &r {
+                    let (stem, msg) = stem_of_error(e);
+                    res.v("C10", format!("abort_remaining-returned-error/{}", stem), msg);
+                }
+                chk!(r, "abort_remaining");
                 let fin = g.is_finished();
                 let ready: BTreeSet<String> = g.query_ready_to_run().into_iter().collect();
                 let eng_running: BTreeSet<String> = g.query_jobs_running().into_iter().collect();
@@ -636,6 +678,7 @@ pub fn run_eval(w: &mut World, plan: &Plan, sched: &Sched, opts: &Opts) -> EvalO
         };
         for (a, j) in todo {
         nactions += 1;
+        probe_before = if opts.probes { Some(observable(&mut g, &ids)) } else { None };
         match a {
             0 => {
                 res.events.push(format!("start {}", j));
@@ -776,18 +819,21 @@ pub fn run_eval(w: &mut World, plan: &Plan, sched: &Sched, opts: &Opts) -> EvalO
     let snap: Snapshot = g.verif_snapshot();
     for (j, st, _) in snap.jobs.iter() {
         res.final_states.insert(j.clone(), st.clone());
+        // what happened to the job is taken from what the driver did; the engine's state only
+        // tells the never-started jobs apart
         let d = if res.running_at_abort.contains(j) {
             Disp::ExecAborted
         } else if res.succeeded.contains(j) {
             Disp::ExecOk
         } else if res.failed.contains(j) {
             Disp::ExecFailed
-        } else if st.contains("UpstreamFailure") {
+        } else if st.contains("UpstreamFailure") || res.upstream_failed.contains(j) {
             Disp::UpstreamFailed
-        } else if st.contains("Aborted") {
-            Disp::Aborted
         } else if st.contains("FinishedSkipped") {
             Disp::Skipped
+        } else if st.contains("Aborted") || (res.aborted && !res.executed.contains(j)) {
+            // never started, the evaluation was aborted (whatever the engine calls its state)
+            Disp::Aborted
         } else {
             Disp::Other
         };
@@ -809,6 +855,7 @@ pub fn run_eval(w: &mut World, plan: &Plan, sched: &Sched, opts: &Opts) -> EvalO
             res.engine_error = Some("not finished".into());
             return res;
         }
+        PHASE.with(|p| p.set(if res.aborted { "new_history-after-abort" } else { "new_history" }));
         match g.new_history() {
             Ok(h) => {
                 res.new_history = Some(h.into_iter().collect());
@@ -889,6 +936,10 @@ fn probe_round(
     for jid in all_ids.iter() {
         if !ready.contains(jid) {
             calls.push(("start-not-offered", Some(jid.clone())));
+        } else if before.3 || before.0.jobs.iter().any(|x| x.0 == *jid && is_fin(&x.1)) {
+            // listed as ready although the job (or the whole evaluation) is already finished:
+            // starting it is misuse under any reading
+            calls.push(("start-finished-job", Some(jid.clone())));
         }
         if !my_running.contains(jid) {
             calls.push(("success-not-running", Some(jid.clone())));
@@ -902,7 +953,7 @@ fn probe_round(
     for (what, jid) in calls {
         let j = jid.clone().unwrap_or_default();
         let r = catch_unwind(AssertUnwindSafe(|| match what {
-            "start-not-offered" => g.event_now_running(&j),
+            "start-not-offered" | "start-finished-job" => g.event_now_running(&j),
             "success-not-running" => g.event_job_finished_success(&j, "bogus=0".into()),
             "failure-not-running" => g.event_job_finished_failure(&j),
             "cleanup-not-offered" => g.event_job_cleanup_done(&j),
@@ -933,6 +984,8 @@ fn probe_round(
 }
 
 thread_local! {
+    /// which part of the protocol the driver is in (read by `safe_eval` when the engine panics)
+    pub static PHASE: Cell<&'static str> = Cell::new("run");
     pub static LAST_PANIC: std::cell::RefCell<String> = std::cell::RefCell::new(String::new());
 }
 
@@ -973,6 +1026,13 @@ pub fn safe_eval(w: &mut World, plan: &Plan, sched: &Sched, opts: &Opts) -> Eval
             let mut out = EvalOut::default();
             let stem: String = msg.split('@').next().unwrap_or("").chars().take(50).collect();
             out.engine_error = Some(format!("panic {}", msg));
+            let phase = PHASE.with(|p| p.get());
+            if phase == "abort" || phase == "new_history-after-abort" {
+                out.violations.push(Violation { prop: "C10", clause: format!("panic-during-{}/{}", phase, stem.trim()), detail: msg.clone() });
+            }
+            if phase == "run" || phase == "abort" {
+                out.violations.push(Violation { prop: "C05", clause: format!("evaluation-cannot-finish/panic/{}", stem.trim()), detail: msg.clone() });
+            }
             out.violations.push(Violation {
                 prop: "C06",
                 clause: format!("panic/{}", stem.trim()),
